@@ -832,6 +832,10 @@ class _GenerateRenderMethod:
             self.printer.writeline("__M_writer(%s)" % node.text)
 
     def visitControlLine(self, node):
+        if (node.isend or not node.is_primary) and self.printer.suite_is_empty:
+            # nothing was written since the previous control line of this
+            # statement, e.g. its suite holds only a <%def> or a <%! %> block
+            self.printer.writeline("pass")
         if node.isend:
             self.printer.writeline(None)
             if node.has_loop_context:
